@@ -107,6 +107,7 @@ Definition run_outboard (a : list N) : list N :=
   else if entry =? 15 then of_res (create_sized B3 PreIO data size bs)      (* second create() on the same handle *)
   else if entry =? 16 then of_res (create_sized B3 PostIO data size bs)     (* create() on a handle not at position 0 *)
   else if entry =? 17 then of_res (create_sized B3 PreIO (data ++ repeat 90%uint63 3000) size bs)   (* longer source *)
+  else if entry =? 19 then of_res (create_sized B3 PostIO data size bs)     (* second blob of a stream of two *)
   else
     let ob0 := mkOb3 PostIO AA_hash t (firstn (N.to_nat (outboard_size t)) (stale t)) in
     match init_from B3 ob0 (data ++ repeat 90%uint63 3000) with Ok ob => ob_obs 0 (Some ob) | Err k => ob_obs (1 + kcode k) (Some ob0) | Panic => [PANIC] end.
@@ -115,7 +116,7 @@ Definition run_outboard (a : list N) : list N :=
 Definition holds_outboard (a o : list N) : bool :=
   let data := blob a in
   let bs := arg a 3 in let entry := arg a 4 in
-  let post := existsb (N.eqb entry) [1; 3; 4; 6; 7; 9; 11; 12; 14; 16; 18] in
+  let post := existsb (N.eqb entry) [1; 3; 4; 6; 7; 9; 11; 12; 14; 16; 18; 19] in
   let is_stale := existsb (N.eqb entry) [8; 9; 14] in
   let spec := spec_outboard B3 post data bs in
   let nb := sp_blocks (blen B3 data) bs in
@@ -142,6 +143,7 @@ Fixpoint apply_cor (n : nat) (l : list N) (data obd : bytes) : bytes * bytes * l
         else if w =? 1 then apply_cor k rest data (xor_at obd pos delta)
         else if w =? 2 then apply_cor k rest (zero_from data pos) obd
         else if w =? 4 then apply_cor k rest (firstn (N.to_nat pos) data) obd
+        else if w =? 5 then apply_cor k rest (data ++ repeat 90%uint63 (N.to_nat pos)) obd
         else apply_cor k rest data (zero_from obd pos)
     | _ => (data, obd, [])
     end
@@ -384,7 +386,7 @@ Definition run_decode (a : list N) : list N :=
   let t := mkTree (ds_claimed s) (ds_bs s) in
   let stream := ds_stream s in
   let q := ds_q s in
-  let mk_target (_ : unit) := repeat 0%uint63 (N.to_nat (ds_claimed s)) in
+  let mk_target (_ : unit) := repeat 165%uint63 (N.to_nat (ds_claimed s)) in
   let fin (oc : outcome) (consumed hash_ok tree_ok : N) (target : bytes) (obd : N) (items : list (item B3)) : list N :=
     match oc with
     | Panicked | OutOfFuel => [PANIC]
@@ -504,7 +506,7 @@ Definition holds_decode (a o : list N) : bool :=
        else
          (* decode_ranges: target and outboard hold exactly the yielded items *)
          let k := okind_of (ds_sink s) in
-         let target0 := repeat 0%uint63 (N.to_nat claimed) in
+         let target0 := repeat 165%uint63 (N.to_nat claimed) in
          let ob0 := match k with EmptyOb => [] | _ => zeros B3 (N.to_nat (outboard_size (mkTree size bs))) end in
          match save_items exp_items k size bs ob0 with
          | (Some obd', _) =>
